@@ -297,6 +297,9 @@ where
         cases: cases as u32,
         failure_persistence: None,
         max_shrink_iters: 4096,
+        // a change that makes every failing case slow (livelock until the poll cap) must not turn
+        // shrinking into a hang: stop after 45 s and report the best case so far
+        max_shrink_time: 45_000,
         max_global_rejects: 1 << 20,
         ..Config::default()
     };
@@ -305,6 +308,10 @@ where
     let res = catch_unwind(AssertUnwindSafe(|| runner.run(&s, |case| {
         let mut acc = cell.borrow_mut();
         acc.eval();
+        if acc.frozen {
+            // shrinking: not counted as evaluations, but it is progress for the watchdog
+            PROGRESS.fetch_add(1, Ordering::Relaxed);
+        }
         let r = catch_unwind(AssertUnwindSafe(|| f(&case, &mut acc)));
         match r {
             Ok(Ok(())) => Ok(()),
@@ -315,6 +322,20 @@ where
                     }
                     Ok(())
                 } else {
+                    if !acc.frozen {
+                        // remembered before shrinking starts: if the run is cut short (watchdog),
+                        // the failure is still reported, with the unshrunk case as the replay
+                        if let Ok(mut u) = UNSHRUNK.lock() {
+                            if u.len() < MAX_VIOLATIONS && !u.iter().any(|v| v.sig == fl.sig) {
+                                u.push(Violation {
+                                    phase: phase.to_string(),
+                                    sig: fl.sig.clone(),
+                                    msg: fl.msg.clone(),
+                                    case: serde_json::to_value(&case).unwrap_or(Value::Null),
+                                });
+                            }
+                        }
+                    }
                     acc.frozen = true;
                     Err(TestCaseError::fail(fl.sig))
                 }
@@ -454,6 +475,9 @@ pub fn build_tag() -> &'static str {
         "unchecked"
     }
 }
+
+/// Failures seen by a proptest shard before shrinking (see `proptest_shard`); read by the watchdog.
+pub static UNSHRUNK: std::sync::Mutex<Vec<Violation>> = std::sync::Mutex::new(Vec::new());
 
 pub fn write_replay(id: &str, v: &Violation) -> String {
     let fp = fingerprint(&(&v.phase, &v.sig, &v.case));
